@@ -82,8 +82,35 @@ def alg_kwargs(spec):
     return kw
 
 
-def run_class(setup, spec, hc, tag):
-    alg = CLASSES[spec["cls"]](name=tag, hc=dict(hc), **alg_kwargs(spec))
+def as_user(rng, d):
+    """A criteria dict as a user may legally write it: keys in any order (e.g. alphabetical, as json.dumps(sort_keys=True) gives),
+    now and then an int where a float is documented (xi_max=1, mpc_lim=0).  The harness judges by KEY against its own values."""
+    keys = list(d)
+    r = rng.random()
+    if r < 0.25:
+        keys = sorted(keys)
+    elif r < 0.4:
+        keys = sorted(keys, reverse=True)
+    else:
+        keys = [keys[i] for i in rng.permutation(len(keys))]
+    out = {}
+    for k in keys:
+        v = d[k]
+        if isinstance(v, float) and v == int(v) and abs(v) < 1e6 and rng.random() < 0.5:
+            v = int(v)
+        out[k] = v
+    return out
+
+
+def rand_sc(rng):
+    return as_user(rng, dict(err_fn=float(rng.choice([0.01, 0.05, 1.0])), err_xi=float(rng.choice([0.05, 0.1])), err_phi=float(rng.choice([0.03, 0.1, 1.0]))))
+
+
+def run_class(setup, spec, hc, tag, sc=None):
+    kw = alg_kwargs(spec)
+    if sc is not None:
+        kw["sc"] = dict(sc)
+    alg = CLASSES[spec["cls"]](name=tag, hc=dict(hc), **kw)  # dict(hc) keeps the key order of hc
     setup.add_algorithms(alg)
     setup.run_by_name(tag)
     return alg
@@ -655,15 +682,18 @@ def run_config(ctx, spec, hcs, exprs, meta, corpus=False):
     for hc in hcs:
         todo.append(("given", hc, None))
     if not corpus:
+        todo.append(("neutral", as_user(rng, dict(conj=False, xi_max=2.0, mpc_lim=-1.0, mpd_lim=10.0, cov_max=1.7e308)), None))
         for mode in spec.get("_modes", []):
-            todo.append((mode, gen_hc(rng, U, mpc, mpd, mode), None))
+            todo.append((mode, as_user(rng, gen_hc(rng, U, mpc, mpd, mode)), None))
     for j, (mode, hc, alg) in enumerate(todo):
         if pl:
             hc = {k: v for k, v in hc.items() if k != "cov_max"}
-        case = dict(spec={k: v for k, v in spec.items() if not k.startswith("_")}, hc=hc, mode=mode)
+        sc = None if (corpus or alg is not None) else rand_sc(rng)
+        case = dict(spec={k: v for k, v in spec.items() if not k.startswith("_")}, hc=hc, mode=mode, sc=sc)  # hc, sc: in the key order passed
+        ctx.hist("hc key order", "documented" if list(hc) == [k for k in DEFAULT_HC if k in hc] else "other")
         try:
             if alg is None:
-                alg = run_class(setup, spec, hc, "a%d" % j)
+                alg = run_class(setup, spec, hc, "a%d" % j, sc)
             R = result_tables(alg, spec)
         except Exception as e:
             ctx.fail("oracle", "%s.run raised %s with criteria %s" % (spec["cls"], type(e).__name__, hc), case, key="C09:%s:raises" % spec["cls"])
@@ -744,8 +774,10 @@ def rerun_sequence(ctx, spec, hcs, hows, exprs, meta, pattern=None):
     except Exception as e:
         ctx.hist("configurations the library rejects", type(e).__name__)
         return
+    sc = None
     if hcs is None:
-        hcs = seq_hcs(ctx.np_rng, U, mpc, mpd, pattern)
+        hcs = [as_user(ctx.np_rng, h) for h in seq_hcs(ctx.np_rng, U, mpc, mpd, pattern)]
+        sc = rand_sc(ctx.np_rng)
     ctx.hist("re-run sequences", spec["cls"] + ("+unc" if spec.get("calc_unc") else "") + " " + (pattern or "given"))
     alg = None
     passed = []
@@ -753,10 +785,14 @@ def rerun_sequence(ctx, spec, hcs, hows, exprs, meta, pattern=None):
         hc = hc_for(spec, hc)
         how = "construct" if j == 0 else hows[(j - 1) % len(hows)]
         passed.append(dict(hc))
-        case = dict(kind="rerun", spec=clean(spec), hcs=[dict(h) for h in passed], hows=list(hows), run_index=j, how=how)
+        case = dict(kind="rerun", spec=clean(spec), hcs=[dict(h) for h in passed], hows=list(hows), run_index=j, how=how)  # hcs in the key order passed
+        ctx.hist("hc key order", "documented" if list(hc) == [k for k in DEFAULT_HC if k in hc] else "other")
         try:
             if alg is None:
-                alg = CLASSES[spec["cls"]](name="seq", hc=dict(hc), **alg_kwargs(spec))
+                kw = alg_kwargs(spec)
+                if sc is not None:
+                    kw["sc"] = dict(sc)
+                alg = CLASSES[spec["cls"]](name="seq", hc=dict(hc), **kw)
                 setup.add_algorithms(alg)
             else:
                 set_criteria(alg, spec, hc, how)
@@ -800,6 +836,7 @@ def multi_instance(ctx, groups, exprs, meta):
             hc = hc_for(spec, a["hc"] if a.get("hc") is not None else DEFAULT_HC)
             U, mpc, mpd = refs[gi][ai]
             case = dict(kind="multi", spec=clean(spec), hc=hc, groups=layout, judged=[gi, ai])
+            ctx.hist("hc key order", "documented" if list(hc) == [k for k in DEFAULT_HC if k in hc] else "other")
             try:
                 R = result_tables(built[gi][1][ai], spec)
             except Exception as e:
@@ -837,7 +874,7 @@ def gen_multi(rng, family, quick):
     algs = []
     for j, k in enumerate(order):
         hc = pool[j % len(pool)]
-        algs.append(dict(spec=specs[k], hc=None if hc is None else dict(hc), sc=dict(err_fn=float(rng.choice([0.01, 0.05])), err_xi=0.05, err_phi=float(rng.choice([0.03, 0.1])))))
+        algs.append(dict(spec=specs[k], hc=None if hc is None else as_user(rng, hc), sc=rand_sc(rng)))
     return algs
 
 
@@ -853,6 +890,7 @@ def run(ctx):
         "exact ties (value == threshold) are judged in the correspondence (the model is strict where the code is), not by the oracle (the property leaves a relative 1e-9 margin unjudged)",
         "hypothesis of C09_sound_complete_ssi_cov / C09_joint_nan_ssi: no surviving pole has a frequency covariance exactly 0 (x*mask; x[x==0]=nan idiom of HC_cov)",
         "Phi_poles_cov is never filled by SSI_poles (all-nan before the criteria) and is outside the joint-NaN clause",
+        "every generated hc / sc dict is passed with its keys in a random order (25 % alphabetical) and integral values now and then as ints; each run is judged by key against the harness's own copy",
     ]
     exprs, meta = [], []
     # ---- corpus first (repaired defect b6576bf: MPD mask dropped by the second applymask)
